@@ -11,7 +11,7 @@ A_COMMON = ("Trusted base: go/types+go/ssa, govc's translation and memory model,
             "data-structure invariants that are `relies` clauses (assumed at function entry, re-established by the writers' postconditions, listed in the evidence); "
             "`postulate` clauses (ghost denotations of slots, listed in the evidence).")
 
-A_E2E = (" A bounded END-TO-END cross-check of the same statements on the real code against independent oracles (a map model with all tree invariants checked at every node after every step of pseudo-random Set/Delete/Flush/Evict/re-open histories; an independent root-record validator over files with junk tails, truncations and boundary alignments) runs with every check and is reported separately under coverage.bounded: it exercises the assumptions (slot-denotation postulates, library contracts), and is never counted as proved.")
+A_E2E = (" A bounded END-TO-END cross-check of the same statements on the real code against independent oracles (per property: a map model with all tree invariants checked at every node after every step of pseudo-random Set/Delete/Flush/Evict/re-open histories; an independent root-record validator over files with junk tails, truncations and boundary alignments; FlushRevert histories; a fault injected at every file call of every operation; a read log for value bytes; traces with and without neutral callbacks) runs with every check and is reported separately under coverage.bounded: it exercises the assumptions (slot-denotation postulates, library contracts), and is never counted as proved.")
 
 A_TREE = (" Tree tier: each nodeLoc/itemLoc slot denotes an abstract tree/item held in ghost arrays (tvs/ias); nodeLoc.read/itemLoc.read POSTULATE that what they return denotes the slot "
           "(justified by the codec round trip C14 and the append-only file C09, not re-proved per call) and that a node reachable from a live root has not been recycled (the C10 ownership argument, DESIGN 5.C10; "
@@ -47,7 +47,7 @@ claim("C03", "proof",
 claim("C08", "proof",
       "Proved: FlushRevert lands on the greatest valid root strictly below the current one or on the empty store, truncates exactly there (once, never on a snapshot, never writes), refuses memory-only stores, "
       "and terminates (loop variants of the scan; the FlushRevert-to-empty hang D1 was found by the variant obligation and repaired).",
-      A_COMMON + " Not decided: that the collections re-read after the revert equal the ones flushed then (JSON decode, A8).")
+      A_E2E + A_COMMON + " Not decided: that the collections re-read after the revert equal the ones flushed then (JSON decode, A8).")
 
 claim("C09", "proof",
       "Proved for every WriteAt site and their callers up to Flush: writes go only at offsets >= the size at entry, every byte below it is unchanged (samePrefix), other files are untouched; "
@@ -58,7 +58,7 @@ claim("C07", "proof",
       "Proved for the functions under contract (codecs, scan/open, writers, Flush, FlushRevert, GetItem, Get, SetItem, Set, Delete, walk, MinItem, MaxItem, GetTotals, union, split, join): every file error is propagated "
       "(ghost counter io.fails: if it grew, the error result is non-nil) -- this found D5 (repaired); failed writes leave size/locations unchanged; a failed SetItem/Delete leaves the published root and its denotation unchanged; "
       "no reachable panic (nil dereference, index, slice, explicit panic) under the stated preconditions; every loop and recursion has a variant.",
-      A_COMMON + A_TREE + " Known findings (recorded, not repaired): D6 reclaim marks left behind by a failed SetItem/Delete, D9 Exist swallows read errors. Not decided: visits, CopyTo, 'after the fault clears' histories.")
+      A_E2E + A_COMMON + A_TREE + " Known findings (recorded, not repaired): D6 reclaim marks left behind by a failed SetItem/Delete, D9 Exist swallows read errors. Not decided: visits, CopyTo, 'after the fault clears' histories.")
 
 claim("C12", "proof",
       "Proved: SetCollection/RemoveCollection/GetCollection against a finite-map model of the store's collection map (new name => fresh empty collection; existing name => same version object, "
@@ -77,12 +77,12 @@ claim("C15", "other",
 claim("C17", "proof",
       "Every obligation of itemLoc.write/read, Item.NumValBytes/NumBytes, itemLoc.NumBytes and the five dispatch wrappers is generated with the callback fields symbolic (nil or a neutral implementation per A9), "
       "so layout, bookkeeping and accounting are proved for all installation subsets at once; the on-disk value length is the callback's answer when installed.",
-      A_COMMON + " 'Neutral' is defined by the functype contracts (A9), including cbvlen(i) == len(i.Val) when the default writer is used with a custom length callback.")
+      A_E2E + A_COMMON + " 'Neutral' is defined by the functype contracts (A9), including cbvlen(i) == len(i.Val) when the default writer is used with a custom length callback.")
 
 claim("C19", "proof",
       "Proved: itemLoc.read with withValue=false covers no value byte (ghost io.valbytes, counted by the ReadAt contract through an uninterpreted 'value byte' predicate, with the rely that an item record's header and key bytes are not value bytes); "
       "nodeLoc.read issues at most one 52-byte read and covers no value byte; GetItem(withValue=false), Exist, walk/MinItem/MaxItem(withValue=false), GetTotals, SetItem, Set, Delete, union, split, join read no value byte (io.valbytes unchanged is a postcondition of each).",
-      A_COMMON + " Not decided: 'open reads only the root record' beyond the scan's own reads; Len and the visits.")
+      A_E2E + A_COMMON + " Not decided: 'open reads only the root record' beyond the scan's own reads; Len and the visits.")
 
 claim("C02", "other",
       "Proved premises P1 (codecs inverse), P2 (writeItems/writeNodes persist children before parents; locations only appear), P3 (each record is written at offset = size with the recorded location {offset, exact length} and size advanced by exactly that) for items, nodes and the root record; "
